@@ -6,6 +6,7 @@ from .common import *
 from .isomsg import *
 
 PROPERTY = 'C17'
+PYTHON_O = ['writer/1rec/latin_1/blocked', 'writer/1rec/latin_1/unblocked', 'invalid/short', 'invalid/first-length']      # obligations that are also explored with the modules compiled as under python -O
 ASSUMPTIONS = [
     'files are produced by the real IpmWriter on a RopeFile from symbolic messages (few, long records: lengths symbolic so that files span 1..9 blocks)',
     'for unblocked files the two bytes at offsets 1012-1013 are whatever the writer put there; opaque content there is read through the peek table',
@@ -44,18 +45,18 @@ def writer_file(nrec, enc, blocked, bits_for, mtis=('1240',)):
         f.pos = 0
         with guard('ipm_info', 'C17/exception', rp):
             info = m.ipm_info(f)
-        require(info.get('isValidIPM') is True, 'writer output reported invalid: %s' % (info.get('reason'),), key='C17/valid', replay=rp)
+        require(is_true(info.get('isValidIPM')), 'writer output reported invalid: %s' % (info.get('reason'),), key='C17/valid', replay=rp)
         fam = 'latin1' if enc == 'latin_1' else 'cp037'
         require(info.get('encoding') == fam, 'encoding family reported as %r' % (info.get('encoding'),), key='C17/encoding', replay=rp)
         if blocked:
-            require(info.get('isBlocked') is True, 'blocked file of %s bytes reported as not blocked' % (ev(size),), key='C17/blocked', replay=rp)
+            require(is_true(info.get('isBlocked')), 'blocked file of %s bytes reported as not blocked' % (ev(size),), key='C17/blocked', replay=rp)
         else:
             if size >= 1014:
                 looks = (sl(data, 1012, 1014) == b'\x40\x40')
                 if not looks:
-                    require(info.get('isBlocked') is False, 'unblocked file reported as blocked', key='C17/unblocked', replay=rp)
+                    require(is_false(info.get('isBlocked')), 'unblocked file reported as blocked', key='C17/unblocked', replay=rp)
             else:
-                require(info.get('isBlocked') is False, 'unblocked file shorter than a block reported as blocked', key='C17/unblocked', replay=rp)
+                require(is_false(info.get('isBlocked')), 'unblocked file shorter than a block reported as blocked', key='C17/unblocked', replay=rp)
         return {'sample': {'size': ev(size), 'blocks': ev(size // 1014), 'info': {k: (v if isinstance(v, (bool, str)) else str(v)) for k, v in info.items()}}, 'replay': rp()}
     return h
 
@@ -63,7 +64,7 @@ def writer_file(nrec, enc, blocked, bits_for, mtis=('1240',)):
 def invalid_short():
     def h():
         m = M().mciipm
-        n = sym_int('n', 0, 40)
+        n = sym_int('n', 0, 23)
         src = Source('file', 'b', n)
         # first length is read from the file: make it small so that only the size test decides
         f = RopeFile(src.rope() if not (isinstance(n, int) and n == 0) else b'')
@@ -75,7 +76,7 @@ def invalid_short():
             except core.Unsupported:
                 raise core.PathAbort('opaque bitmap')
         if n < 24:
-            require(info.get('isValidIPM') is False and info.get('reason'), 'input shorter than 24 bytes not reported invalid with a reason', key='C17/short', replay=rp)
+            require(is_false(info.get('isValidIPM')) and info.get('reason'), 'input shorter than 24 bytes not reported invalid with a reason', key='C17/short', replay=rp)
         return {'sample': {'n': ev(n), 'valid': info.get('isValidIPM')}, 'replay': rp}
     return h
 
@@ -93,9 +94,9 @@ def invalid_length():
             info = m.ipm_info(f)
         mx = M().config.config.get('MAX_VBS_RECORD_LENGTH', 6000)
         if L > mx:
-            require(info.get('isValidIPM') is False and info.get('reason'), 'first length above the maximum not reported invalid', key='C17/maxlen', replay=rp)
+            require(is_false(info.get('isValidIPM')) and info.get('reason'), 'first length above the maximum not reported invalid', key='C17/maxlen', replay=rp)
         else:
-            require(info.get('isValidIPM') is True, 'first length within the maximum reported invalid', key='C17/maxlen', replay=rp)
+            require(is_true(info.get('isValidIPM')), 'first length within the maximum reported invalid', key='C17/maxlen', replay=rp)
         return {'sample': {'first_len': ev(L), 'valid': info.get('isValidIPM')}, 'replay': rp}
     return h
 
@@ -112,7 +113,7 @@ def invalid_bit():
         core.set_fallback(rp, 'C17/concretised')
         with guard('ipm_info', 'C17/exception', rp):
             info = m.ipm_info(RopeFile(data))
-        require(info.get('isValidIPM') is False and info.get('reason'), 'unconfigured bit %d not reported invalid' % b, key='C17/bit', replay=rp)
+        require(is_false(info.get('isValidIPM')) and info.get('reason'), 'unconfigured bit %d not reported invalid' % b, key='C17/bit', replay=rp)
         return {'sample': {'bit': b, 'reason': str(info.get('reason'))}, 'replay': rp}
     return h
 
@@ -135,9 +136,9 @@ def configured_max():
         finally:
             cfg['MAX_VBS_RECORD_LENGTH'] = old
         if L > newmax:
-            require(info.get('isValidIPM') is False and info.get('reason'), 'first length above the configured maximum (%d) not reported invalid' % newmax, key='C17/maxlen', replay=rp)
+            require(is_false(info.get('isValidIPM')) and info.get('reason'), 'first length above the configured maximum (%d) not reported invalid' % newmax, key='C17/maxlen', replay=rp)
         else:
-            require(info.get('isValidIPM') is True, 'first length within the configured maximum (%d) reported invalid' % newmax, key='C17/maxlen', replay=rp)
+            require(is_true(info.get('isValidIPM')), 'first length within the configured maximum (%d) reported invalid' % newmax, key='C17/maxlen', replay=rp)
         return {'sample': {'first_len': ev(L), 'max': newmax, 'valid': info.get('isValidIPM')}, 'replay': rp}
     return h
 
@@ -162,7 +163,7 @@ def obligations(tier):
                           'first MTI from %s (every decimal digit occurs), one record with elements 2 and 72 of every length' % MTIS, _funcs))
     if not q:
         obs.append(Ob('writer/3rec/latin_1/blocked', writer_file(3, 'latin_1', True, lambda i: [[2, 127], [54, 72], [111, 3]][i]), 900, 'three records', _funcs))
-    obs.append(Ob('invalid/short', invalid_short(), 60, 'opaque input of length 0..40', _funcs))
+    obs.append(Ob('invalid/short', invalid_short(), 200, 'opaque input of every length below 24 bytes', _funcs))
     obs.append(Ob('invalid/first-length', invalid_length(), 60, 'first 4-byte length any 32-bit value (max / max+1 boundary is a value of it)', _funcs))
     obs.append(Ob('invalid/first-length/configured-max', configured_max(), 60, 'MAX_VBS_RECORD_LENGTH set to 200 / 1500 / 8000 at run time, first length any value 0..20000', _funcs))
     obs.append(Ob('invalid/unconfigured-bit', invalid_bit(), 120, 'each bit without configuration set in the first bitmap', _funcs))
